@@ -303,9 +303,12 @@ func TestTrace(t *testing.T) {
 		st.QuotaScheds++
 	}
 	rounds := tracefmt.EnvInt("VERIF_QUOTA_ROUNDS", 40)
-	tw.Emit(tracefmt.Rec{"ev": "reset", "kind": "quota", "eps_milli": 1, "burst": 1, "conc": true})
-	q := verifexport.NewQuota(0.001, 1, 100000)
+	var q *verifexport.Quota
 	for r := 0; r < rounds; r++ {
+		if r%25 == 0 { // a new quota (and a new run for the judge) every 25 fresh blocks
+			tw.Emit(tracefmt.Rec{"ev": "reset", "kind": "quota", "eps_milli": 1, "burst": 1, "conc": true})
+			q = verifexport.NewQuota(0.001, 1, 100000)
+		}
 		var wg sync.WaitGroup
 		gate := make(chan struct{})
 		for k := 0; k < 8; k++ {
